@@ -3,6 +3,6 @@ CONSTANTS
   Sources <- SrcThorough
   MaxInst = 3
 VIEW View
-INVARIANTS TypeOK
+INVARIANTS TypeOK SeqOK
 PROPERTIES Accepts LoopVisits
 CHECK_DEADLOCK FALSE
